@@ -15,7 +15,9 @@ PENDING = {}
 PENDING_TEXT = {
     "C04": ["ShapeVerif.accept_no_diagnostics", "ShapeVerif.unchecked_false", "ShapeVerif.checked_iff",
             "ShapeVerif.sources_accept"],
-    "C05": ["ShapeVerif.classifyArray_never_fails", "ShapeVerif.classifyArrayV_total",
+    "C05": ["ShapeVerif.fromStr_total", "ShapeVerif.span_faithful", "ShapeVerif.entry_points_total",
+            "ShapeVerif.sources_span_faithful", "ShapeVerif.tokenize_ok", "ShapeVerif.parse_leaves",
+            "ShapeVerif.classifyArray_never_fails", "ShapeVerif.classifyArrayV_total",
             "ShapeVerif.rejectDiagnostics_no_panic", "ShapeVerif.isSuperset_never_errs", "ShapeVerif.work_bounds"],
     "C07": ["ShapeVerif.rerender_same_shape", "ShapeVerif.infer_member_order",
             "ShapeVerif.infer_payload_independent", "ShapeVerif.infer_factors", "ShapeVerif.infer_repetition",
@@ -183,12 +185,19 @@ PROPS = {
     "C05": {
         "module": "ShapeVerif.Props.C05",
         "theorems": PENDING_TEXT["C05"],
-        "statements": {},
-        "partial": ["stack depth and wall-clock are reduced to recursion depth / call counts of the model; the real code is run on 100000-bracket and multi-hundred-kilobyte inputs under a per-operation time limit"],
-        "rule": "as C04's corpus plus hostile sizes: 1000 and 100000 unbalanced/balanced brackets, 100000 nested `{\"a\":`, 300 KB (thorough 4 MB) strings with multi-byte characters, wide arrays, unterminated escapes; serde_json values nested to serde_json's limit through the value path. Oracle: no panic, no crash, no timeout; every InvalidJson range lies inside the input on character boundaries and the fragment equals the input at that range (checked byte-wise in Python). Non-trivial = error answer or container.",
+        "statements": {
+            "fromStr_total": "∀ t : List Char, fromStr t ≠ panic — every Rust panic site of the text layer (each `&source[a..b]`, the key-span arithmetic, unwraps) is an explicit panic outcome of the model and none is reachable for any string",
+            "span_faithful": "fromStr t = err (InvalidJson v a b) → ∃ p s, t = p ++ v ++ s ∧ utf8Len p = a ∧ a + utf8Len v = b (range inside the input, on character boundaries, fragment = input at the range)",
+            "entry_points_total": "from_sources, is_superset, is_superset_checked never panic either",
+            "tokenize_ok": "every token is a non-empty range between character boundaries, tokens follow each other in order, String tokens span at least two characters, every lexer diagnostic (incl. the three kinds of check_string) is an ordered pair of boundaries",
+            "parse_leaves": "the leaves of the recovering parser's tree are exactly the lexer's tokens in order (no recovery path drops, duplicates or reorders a token)",
+        },
+        "partial": ["stack depth and wall-clock are not expressible in the model: recursion depth is bounded by the nesting limit (compared, not proved) and the real code is run on 100000-bracket and multi-hundred-kilobyte inputs under a per-operation time limit in a restartable child process",
+                    "work bounds are call counts (work_bounds, shared with C12)"],
+        "rule": "as C04's corpus plus hostile sizes: 1000 and 100000 unbalanced/balanced brackets, 100000 nested `{\"a\":`, 300 KB (thorough 4 MB) strings with multi-byte characters, wide arrays, many siblings, unterminated escapes; serde_json values nested to serde_json's limit through the value path. Oracle: no panic, no crash, no timeout; every InvalidJson range lies inside the input on character boundaries and the fragment equals the input at that range (checked byte-wise in Python). Correspondence is one-sided for C05 (code panics/hangs ⇒ model panics): differences in the answer itself are C04's subject. Non-trivial = error answer or container.",
         "assumptions": ["frame size x 258 nested parse_rule calls fits the stack (validated by the runs)"],
-        "level_text": "Every panic site of the text layer (unwrap, indexing, slicing, usize subtraction, unreachable!) is an explicit panic outcome of the model, which is compared with the real code on every generated text; the implementation is additionally run on adversarial sizes under a time limit and its error ranges are checked byte-wise. Theorems proved so far are listed in the evidence.",
-        "level_note": "Trusted: Lean kernel; text-layer model tied by differential testing; real stack/time behaviour is observed, not proved.",
+        "level_text": "fromStr_total and span_faithful are Lean theorems over all strings: the model of the whole text path (logos-style lexer with check_string, lelwel's recovering parser, parse_cst with all its slices of the source as explicit panic outcomes, reject_diagnostics) never reaches a panic outcome, and every InvalidJson carries exactly the input text at a range on character boundaries. Proved through three invariants: tokens tile the text on character boundaries (tokenize_ok), the parse tree's leaves are the tokens in order (parse_leaves), every diagnostic of lexer and parser is an ordered pair of boundaries. The model is compared with the real code on every generated text including panic/crash/timeout outcomes; stack depth and time are observed on adversarial sizes, not proved.",
+        "level_note": "Trusted: Lean kernel; text-layer model tied by differential testing (lexer tokens, CST, results incl. error ranges); real stack/time behaviour is observed, not proved.",
     },
     "C07": {
         "module": "ShapeVerif.Props.C07",
